@@ -324,4 +324,129 @@ theorem evalFr_sem : EvalFrSemStmt := by
     exact ⟨bitFr_ok Nat.xor false a b (Nat.xor_lt_two_pow (by omega) (by omega)) (by simp),
       Nat.mod_lt _ hpos⟩
 
+theorem evalFr_no_panic : EvalFrNoPanicStmt := by
+  intro op a b ha hb hop
+  have hpos := P_pos
+  by_cases hs : op = .Shl ∨ op = .Shr
+  · rcases hs with hs | hs <;> subst hs
+    · by_cases h : b ≥ 254
+      · refine ⟨0, ?_, hpos⟩
+        simp only [evalFr]; unfold shlFr; rw [if_neg (by omega), if_pos h]
+      · exact ⟨_, shlFr_ok a b ha (by omega), Nat.mod_lt _ hpos⟩
+    · refine ⟨_, shrFr_ok a b ha, ?_⟩
+      split
+      · exact hpos
+      · exact Nat.lt_of_le_of_lt (Nat.div_le_self _ _) ha
+  · have := evalFr_sem op a b ha hb ⟨hop, fun h => absurd h hs⟩
+    exact ⟨_, this.1, this.2⟩
+
+theorem evalFrUno_sem : EvalFrUnoStmt := by
+  intro a ha
+  have hpos := P_pos
+  simp only [evalFrUno, Circom.semUno]
+  by_cases h : a = 0
+  · subst h; simp [hpos]
+  · rw [if_neg h, Nat.mod_eq_of_lt (by omega)]
+    exact ⟨rfl, by omega⟩
+
+theorem evalFrTres_sem : EvalFrTresStmt := by
+  intro a b c ha hb hc
+  simp only [evalFrTres, Circom.semTres]
+  refine ⟨trivial, ?_⟩
+  split <;> assumption
+
+/-! ## the two evaluators -/
+
+theorem evalU_unfold (op : Op) (a b : Nat) : evalU op a b =
+  match op with
+  | .Mul => .ok (a * b % P)
+  | .Div => if b = 0 then .ok 0 else
+      if b % P = 0 then .panic else .ok (a * powMod (b % P) (P - 2) P % P)
+  | .Add => .ok ((a + b) % P)
+  | .Sub => .ok ((a + (P + U256 - b) % U256) % P)
+  | .Pow => .ok (powMod a b P)
+  | .Mod => if b = 0 then .panic else .ok (a % b)
+  | .Idiv => if b = 0 then .panic else .ok (a / b)
+  | .Eq => .ok (b2n (a = b))
+  | .Neq => .ok (b2n (a ≠ b))
+  | .Lt => cmpOut (signedCmp uLt a b)
+  | .Gt => cmpOut (signedCmp uGt a b)
+  | .Leq => cmpOut (signedCmp uLte a b)
+  | .Geq => cmpOut (signedCmp uGte a b)
+  | .Land => .ok (b2n (a ≠ 0 ∧ b ≠ 0))
+  | .Lor => .ok (b2n (a ≠ 0 ∨ b ≠ 0))
+  | .Shl => .ok (if b % U64 ≥ 256 then 0 else a * 2 ^ (b % U64) % U256)
+  | .Shr => .ok (if b % U64 ≥ 256 then 0 else a / 2 ^ (b % U64))
+  | .Bor => .ok (a ||| b)
+  | .Band => .ok (a &&& b)
+  | .Bxor => .ok (a ^^^ b) := rfl
+
+theorem eval_agree : EvalAgreeStmt := by
+  intro op a b ha hb hc
+  have hpos := P_pos
+  have hP := P_lt_254
+  obtain ⟨c1, c2, c3, c4, c5, c6⟩ := hc
+  rw [evalU_unfold]
+  cases op
+  case Pow => exact absurd rfl c1
+  case Shl => exact absurd rfl c2
+  case Mul => rfl
+  case Div =>
+    simp only [evalFr, fdiv, fmul, finv, Nat.mod_eq_of_lt hb]
+    by_cases h : b = 0
+    · rw [if_pos h, if_pos h]
+    · rw [if_neg h, if_neg h, if_neg h]
+  case Add => rfl
+  case Sub =>
+    simp only [evalFr, fsub, Nat.mod_eq_of_lt hb, U256]
+    have : (P + 2 ^ 256 - b) % 2 ^ 256 = P - b := by omega
+    rw [this]
+  case Idiv =>
+    have h := c6 (Or.inl rfl)
+    simp only [evalFr, if_neg h]
+  case Mod =>
+    have h := c6 (Or.inr rfl)
+    simp only [evalFr, if_neg h]
+  case Eq => rfl
+  case Neq => rfl
+  case Lt => rfl
+  case Gt => rfl
+  case Leq => rfl
+  case Geq => rfl
+  case Land => rfl
+  case Lor => rfl
+  case Shr =>
+    have h := c3 rfl
+    have hm : b % U64 = b := by rw [U64_val]; omega
+    simp only [evalFr, hm]
+    rw [shrFr_ok a b ha, if_neg (by omega), if_neg (by omega)]
+  case Bor =>
+    have h := c4 rfl
+    simp only [evalFr]
+    rw [bitFr_ok Nat.lor false a b (show a ||| b < 2 ^ 254 by omega) (by simp)]
+    show Outcome.ok (a ||| b) = .ok ((a ||| b) % P)
+    rw [Nat.mod_eq_of_lt h]
+  case Band =>
+    have hle : a &&& b ≤ a := Nat.and_le_left
+    simp only [evalFr]
+    rw [bitFr_ok Nat.land true a b (show a &&& b < 2 ^ 254 by omega) (fun _ => show a &&& b < P by omega)]
+    show Outcome.ok (a &&& b) = .ok ((a &&& b) % P)
+    rw [Nat.mod_eq_of_lt (by omega)]
+  case Bxor =>
+    have h := c5 rfl
+    simp only [evalFr]
+    rw [bitFr_ok Nat.xor false a b (show a ^^^ b < 2 ^ 254 by omega) (by simp)]
+    show Outcome.ok (a ^^^ b) = .ok ((a ^^^ b) % P)
+    rw [Nat.mod_eq_of_lt h]
+
+theorem evalUno_agree : EvalAgreeUnoStmt := by
+  intro a ha
+  have hP := P_lt_254
+  show (if a = 0 then Outcome.ok 0 else .ok ((P + U256 - a) % U256)) = (if a = 0 then .ok 0 else .ok (P - a))
+  by_cases h : a = 0
+  · rw [if_pos h, if_pos h]
+  · rw [if_neg h, if_neg h, U256]
+    have : (P + 2 ^ 256 - a) % 2 ^ 256 = P - a := by omega
+    rw [this]
+
 end Zk.Graph
